@@ -84,7 +84,8 @@ type Pipe struct {
 	lost     bool
 
 	CloseBehaviour string // eof | err | stay : what a blocked/later Read does after Close
-	CloseErr       error  // returned by Close (which closes all the same): "connection reset by peer" and the like
+	failReadOnce   bool
+	CloseErr       error // returned by Close (which closes all the same): "connection reset by peer" and the like
 	opened         bool
 	closed         bool
 	Closes         int
@@ -321,6 +322,15 @@ func (p *Pipe) Read(n int) ([]byte, error) {
 			}
 		}
 
+		if p.failReadOnce {
+			// a transient read error: this one Read fails, the connection stays usable
+			p.failReadOnce = false
+			p.ev("readerr", []byte("transient"))
+			p.mu.Unlock()
+
+			return nil, errEIO
+		}
+
 		if p.LoseAtEnd != "" && len(p.out) == 0 && p.pendingReacts == 0 {
 			p.lost = true
 			p.LoseKind = p.LoseAtEnd
@@ -547,6 +557,15 @@ func (p *Pipe) SetStall(k int) {
 	defer p.mu.Unlock()
 
 	p.StallAt = k
+	p.cond.Broadcast()
+}
+
+// FailReadOnce makes the Read in progress (or the next one) return an error once; nothing is lost, the connection stays usable.
+func (p *Pipe) FailReadOnce() {
+	p.mu.Lock()
+	defer p.mu.Unlock()
+
+	p.failReadOnce = true
 	p.cond.Broadcast()
 }
 
